@@ -163,6 +163,21 @@ theorem srcVerify_iff (v : Variant) (c : Pow.ChainType) (p : CuckooParams) (eb :
     · rintro ⟨h, _⟩
       exact absurd h hlen
 
+/-- the part of `hok` that needs no loop invariant: on a proof of the WRONG length every translated
+verifier returns normally (the count test is the first statement), so for such proofs
+`srcVerify_iff` holds without the `hok` hypothesis — and says: refused -/
+theorem source_wrong_length_no_panic (v : Variant) (c : Pow.ChainType) (p : CuckooParams) (eb : Nat)
+    (ns : List Nat) (hp : p.proof_size = ns.length) (hlen : ns.length ≠ proofsizeOf c) :
+    srcVerifyOk v (ofPow c) p ⟨eb, ns⟩ = true ∧ srcVerify v (ofPow c) p ⟨eb, ns⟩ ≠ some () := by
+  have hne : (Proof_proof_size ns != Fns.proofsize (ofPow c)) = true := by
+    rw [proofsize_tie]; simpa [Proof_proof_size] using hlen
+  have hok : srcVerifyOk v (ofPow c) p ⟨eb, ns⟩ = true := by
+    cases v <;>
+      simp only [srcVerifyOk, Cuckatoo_verify_ok, Cuckaroo_verify_ok, Cuckarood_verify_ok,
+        Cuckaroom_verify_ok, Cuckarooz_verify_ok, hne, if_true]
+  refine ⟨hok, fun h => ?_⟩
+  exact hlen ((srcVerify_iff v c p eb ns hp hok).mp h).1
+
 /-- `pow::verify_size` over the translated pieces: `create_pow_context(height, edge_bits,
 nonces.len(), MAX_SOLS)?` (translated dispatch; translated constructors; `Graph::new` bound by
 hand), `set_header_nonce` (keys replaced), `verify` (translated) -/
